@@ -854,7 +854,7 @@ func main() {
 		fmt.Fprintln(os.Stderr, "usage: hC01 -seed N -tier quick|thorough -out DIR [-replay file]")
 		os.Exit(2)
 	}
-	w, err := casefile.New(*out, "C01", "From VLib Require Import CaseLib.\nFrom C01 Require Import Model CaseDefs.\nOpen Scope nat_scope.", 12)
+	w, err := casefile.New(*out, "C01", "From VLib Require Import CaseLib.\nFrom C01 Require Import Model CaseDefs.\nOpen Scope nat_scope.", 16)
 	if err != nil {
 		panic(err)
 	}
@@ -867,7 +867,7 @@ func main() {
 		plans = loadReplay(*replay)
 	} else {
 		g := &gen{r: rng.New(*seed)}
-		nRandom, maxRounds := 70, 4
+		nRandom, maxRounds := 160, 4
 		if *tier == "thorough" {
 			nRandom, maxRounds = 1500, 8
 		}
